@@ -531,6 +531,8 @@ def execPrim (cx : Ctx) (op : String) (imms : List String) (w : World) (st : Lis
       match assocGet w.boxes k with
       | some old => if old.length = n then pure (.u 0 :: r, w) else throw (.logic "box size mismatch")
       | none =>
+        -- consensus parameter MaxBoxSize = 32768
+        if n > 32768 then throw (.logic "box size too large") else
         let v := List.replicate n (0 : UInt8)
         pure (.u 1 :: r, { w with boxes := assocSet w.boxes k v, effects := .boxPut k v :: w.effects })
   | "box_put" => do
